@@ -107,7 +107,7 @@ def run(ctx):
     pool = []
     try:
         for i in range(n):
-            pg = gen.PropGen(rng, maxdepth=rng.randrange(1, 3), kw_names=0.1, max_width=3)
+            pg = gen.PropGen(rng, maxdepth=rng.randrange(1, 3), kw_names=0.1, max_width=3, const_preds=0.05)
             p, _, _ = pg.make(n=i)
             nonfinite = rng.random() < 0.25
             if nonfinite:
